@@ -416,3 +416,152 @@ func boolEdge(a, b *ssa.BasicBlock) (v ssa.Value, truth bool, ok bool) {
 func onlyVia(fn *ssa.Function, target ssa.Instruction, via edgePred) bool {
 	return reach(fn, nil, func(i ssa.Instruction) bool { return i == target }, nil, via) == nil
 }
+
+// boolImplies: the boolean v can have the value truth only on executions on which base holds. base judges
+// a (value, truth) pair directly ("this is the lookup's ok, false"); what is added here is the ways a
+// program carries such a fact in another variable:
+//   - a negation or a comparison with a boolean constant (as boolEdge),
+//   - a local (possibly captured by the literal that tests it) that is written once, before any use,
+//   - a φ of constants, or a comparison of one with a constant (`kind := A; if c { kind = B }; … kind == B`):
+//     every input that gives v the value truth must come in from a block that is reached only over
+//     edges on which base holds.
+//
+// Anything else (a φ input that is not a constant, a cell with several stores) is not an implication.
+func boolImplies(v ssa.Value, truth bool, base func(v ssa.Value, truth bool) bool) bool {
+	return boolImplies0(v, truth, base, 0)
+}
+
+func boolImplies0(v ssa.Value, truth bool, base func(v ssa.Value, truth bool) bool, depth int) bool {
+	if v == nil || depth > 6 {
+		return false
+	}
+	if base(v, truth) {
+		return true
+	}
+	via := func(a, b *ssa.BasicBlock) bool {
+		c, t, ok := boolEdge(a, b)
+		return ok && boolImplies0(c, t, base, depth+1)
+	}
+	// the inputs of φ that make `hit` true arrive only over base edges
+	phiInputs := func(phi *ssa.Phi, hit func(e ssa.Value) (is, known bool)) bool {
+		fn := phi.Parent()
+		for k, e := range phi.Edges {
+			is, known := hit(e)
+			if !known {
+				return false
+			}
+			if !is {
+				continue
+			}
+			p := phi.Block().Preds[k]
+			if via(p, phi.Block()) {
+				continue
+			}
+			if len(p.Instrs) == 0 || !onlyVia(fn, p.Instrs[len(p.Instrs)-1], via) {
+				return false
+			}
+		}
+		return true
+	}
+	switch x := v.(type) {
+	case *ssa.UnOp:
+		switch x.Op {
+		case token.NOT:
+			return boolImplies0(x.X, !truth, base, depth+1)
+		case token.MUL:
+			if st := onlyStoreBeforeUse(x); st != nil {
+				return boolImplies0(st.Val, truth, base, depth+1)
+			}
+		}
+	case *ssa.Phi:
+		return phiInputs(x, func(e ssa.Value) (bool, bool) {
+			k, ok := constBool(e)
+			return k == truth, ok
+		})
+	case *ssa.BinOp:
+		if x.Op != token.EQL && x.Op != token.NEQ {
+			return false
+		}
+		a, b := x.X, x.Y
+		if _, isK := a.(*ssa.Const); isK {
+			a, b = b, a
+		}
+		if kb, isB := constBool(b); isB {
+			return boolImplies0(a, truth == (kb == (x.Op == token.EQL)), base, depth+1)
+		}
+		k, isK := constInt(b)
+		if !isK {
+			return false
+		}
+		if ld, isLd := a.(*ssa.UnOp); isLd && ld.Op == token.MUL {
+			if st := onlyStoreBeforeUse(ld); st != nil {
+				a = st.Val
+			}
+		}
+		phi, isPhi := a.(*ssa.Phi)
+		if !isPhi {
+			return false
+		}
+		return phiInputs(phi, func(e ssa.Value) (bool, bool) {
+			c, ok := constInt(e)
+			return ((c == k) == (x.Op == token.EQL)) == truth, ok
+		})
+	}
+	return false
+}
+
+// onlyStoreBeforeUse: the load reads a local cell (or, in a function literal, a captured one) that is
+// written exactly once, in the function that declares it, before the load (before the literal is made);
+// the cell's address goes nowhere else. Returns that store.
+func onlyStoreBeforeUse(ld *ssa.UnOp) *ssa.Store {
+	cell, _ := cellOf(ld.X).(*ssa.Alloc)
+	if cell == nil {
+		return nil
+	}
+	st := singleStore(cell)
+	if st == nil || st.Parent() != cell.Parent() {
+		return nil
+	}
+	ok := true
+	var scan func(v ssa.Value, top bool)
+	scan = func(v ssa.Value, top bool) {
+		if v.Referrers() == nil {
+			ok = false
+			return
+		}
+		for _, r := range *v.Referrers() {
+			switch r := r.(type) {
+			case *ssa.Store:
+				if r.Addr != v {
+					ok = false
+				}
+			case *ssa.UnOp:
+				if r.Op != token.MUL || (top && !instrDominates(st, r)) {
+					ok = false
+				}
+			case *ssa.MakeClosure:
+				if top && !instrDominates(st, r) {
+					ok = false
+				}
+				fn, _ := r.Fn.(*ssa.Function)
+				if fn == nil {
+					ok = false
+					continue
+				}
+				for i, b := range r.Bindings {
+					if b == v && i < len(fn.FreeVars) {
+						scan(fn.FreeVars[i], false)
+					}
+				}
+			case *ssa.DebugRef:
+			default:
+				ok = false
+			}
+		}
+	}
+	scan(cell, true)
+	if !ok {
+		return nil
+	}
+	return st
+}
